@@ -273,7 +273,7 @@ def ref_re_parts(A, b, x, data):
     return out
 
 
-def ob_re(tomo, sysname, m, flag, kind, weighted):
+def ob_re(tomo, sysname, m, flag, kind, weighted, zero_q=False):
     """relative-entropy loss away from the clipping thresholds (q, p >= 1e-3): value == sum_i w_i sum_x q ln(q/p) (ln uninterpreted),
     gradient == -sum w q a/p, Hessian == sum w q a a^T / p^2 (generic), fast == same formulas"""
     d = DIMS[sysname]
@@ -297,6 +297,11 @@ def ob_re(tomo, sysname, m, flag, kind, weighted):
     def run(I):
         qt, x, A, b = model_p(I)
         data = data_from(I, sizes)
+        if zero_q:
+            # empirical distributions with never-observed outcomes (exact zeros, also BEFORE an observed one): 0 ln 0 := 0, and the observed
+            # outcomes keep their own rows of the model
+            pats = {2: [[0.0, 1.0], [0.4, 0.6], [1.0, 0.0]], 3: [[0.4, 0.0, 0.6], [0.0, 0.0, 1.0], [0.2, 0.8, 0.0]]}
+            data = [(1, np.array(pats[s_][k % 3], dtype=np.float64)) for k, s_ in enumerate(sizes)]
         opt = re_option("custom", [float(w) for w in wts]) if weighted else re_option("identity")
         loss = make_loss(kind, qt, opt, data)
         val = loss.value(x)
@@ -307,6 +312,8 @@ def ob_re(tomo, sysname, m, flag, kind, weighted):
         for k, (ps, qs_, rows) in enumerate(parts):
             w = wts[k] if weighted else 1.0
             for pj, qj, row in zip(ps, qs_, rows):
+                if zero_q and not isinstance(qj, Sym) and qj == 0:
+                    continue
                 ref_val = ref_val + w * (qj * (Sym.of(qj) / pj).log() if isinstance(qj, Sym) or isinstance(pj, Sym) else qj * np.log(qj / pj))
                 for a in range(nv):
                     ref_grad[a] = ref_grad[a] - w * qj * A[row, a] / pj
@@ -376,6 +383,9 @@ def obligations(tier):
     for tomo, s_, m in [("qst", "Q1", 0), ("povmt", "Q1", 3)]:
         for flag in (True, False):
             out += specs("C12.se.direct", [{"tomo": tomo, "sysname": s_, "m": m, "flag": flag}], ob_se_direct, 2)
+    for kind in ("re", "re_fast"):
+        out += specs("C12.re", [{"tomo": "qst", "sysname": "Q1", "m": 0, "flag": fl, "kind": kind, "weighted": True, "zero_q": True} for fl in (True, False)], ob_re, 4)
+        out += specs("C12.re", [{"tomo": "povmt", "sysname": "Q1", "m": 3, "flag": False, "kind": kind, "weighted": False, "zero_q": True}], ob_re, 4)
     out += specs("C12.simple_quadratic", [{"n": n} for n in (2, 4)], ob_simple_quadratic, 1)
     return out
 
